@@ -176,7 +176,7 @@ def job_step(J, qn, cls, mode, op):
 def _cex_step(w, m, cls, mode, op):
     if w is None:
         return None
-    fin = bool(z3.is_true(m.eval(w["fin"].t, model_completion=True)))
+    fin = bool(m is not None and z3.is_true(m.eval(w["fin"].t, model_completion=True)))
     hist = {"fresh": [], "started": ["start"], "restored": ["start", "restore"]}[mode]
     if fin:
         hist = hist + ["finish_unknown_side"]
